@@ -15,42 +15,87 @@ func newMemServer(opts ...gofakes3.Option) (http.Handler, *s3mem.Backend) {
 	return g.Server(), b
 }
 
-// VH_C01_mem: PUT then GET/HEAD on the memory backend through the HTTP surface.
-func VH_C01_mem() {
-	h, _ := newMemServer()
+func etagOf(body []byte) string {
+	sum := vsym.MD5(body)
+	return `"` + HexLower(sum[:]) + `"`
+}
+
+// checkEntity asserts GET and HEAD of path return the given entity.
+func checkEntity(tag string, h http.Handler, path string, body []byte, hdrs map[string]string) {
+	etag := etagOf(body)
+	rg := Do(h, Req{Method: "GET", Path: path})
+	vsym.Assert(rg.Code() == 200, tag+"/get-status")
+	vsym.Assert(string(rg.Body) == string(body), tag+"/get-body")
+	vsym.Assert(rg.Hdr.Get("Content-Length") == itoa(len(body)), tag+"/get-length")
+	vsym.Assert(rg.Hdr.Get("ETag") == etag, tag+"/get-etag")
+	rh := Do(h, Req{Method: "HEAD", Path: path})
+	vsym.Assert(rh.Code() == 200, tag+"/head-status")
+	vsym.Assert(len(rh.Body) == 0, tag+"/head-empty-body")
+	vsym.Assert(rh.Hdr.Get("Content-Length") == itoa(len(body)), tag+"/head-length")
+	vsym.Assert(rh.Hdr.Get("ETag") == etag, tag+"/head-etag")
+	for k, v := range hdrs {
+		vsym.Assert(rg.Hdr.Get(k) == v, tag+"/get-header-"+k)
+		vsym.Assert(rh.Hdr.Get(k) == v, tag+"/head-header-"+k)
+	}
+}
+
+// c01Scenario: upload by PUT / copy / browser-form POST, then read back.
+func c01Scenario(h http.Handler, integrity bool) {
 	rc := Do(h, Req{Method: "PUT", Path: "/bkt"})
 	vsym.Assert(rc.Code() == 200, "C01/create-bucket")
 
-	maxLen := vsym.Param("maxbody", 3)
-	n := vsym.Choice("len", maxLen+1)
+	n := vsym.Choice("len", vsym.Param("maxbody", 3)+1)
 	body := vsym.Bytes("body", n)
 	key := "k" + vsym.String("key", 1)
 	vsym.Assume(key[1] != '/')
 
+	// metadata: presence flags and values are free
+	meta := map[string]string{}
 	hdr := http.Header{}
-	ct := vsym.String("ct", 1)
-	hdr.Set("Content-Type", ct)
-	meta := vsym.String("meta", 1)
-	hdr.Set("X-Amz-Meta-A", meta)
-	rp := Do(h, BodyReq("PUT", "/bkt/"+key, hdr, body))
-	vsym.Assert(rp.Code() == 200, "C01/put-status")
-	sum := vsym.MD5(body)
-	etag := `"` + HexLower(sum[:]) + `"`
-	vsym.Assert(rp.Hdr.Get("ETag") == etag, "C01/put-etag")
+	for _, name := range []string{"Content-Type", "Content-Encoding", "Content-Disposition", "X-Amz-Meta-A"} {
+		if vsym.Choice("has-"+name, 2) == 1 {
+			v := vsym.String("v-"+name, 1)
+			meta[name] = v
+			hdr.Set(name, v)
+		}
+	}
+	if vsym.Choice("prior", 2) == 1 { // an older object at the key, with other metadata
+		vsym.Assert(Do(h, BodyReq("PUT", "/bkt/"+key, http.Header{"X-Amz-Meta-Old": {"o"}}, []byte("previous"))).Code() == 200, "C01/prior-put")
+	}
+	switch vsym.Choice("path", 3) {
+	case 0: // PUT
+		rp := Do(h, BodyReq("PUT", "/bkt/"+key, hdr, body))
+		vsym.Assert(rp.Code() == 200, "C01/put-status")
+		vsym.Assert(rp.Hdr.Get("ETag") == etagOf(body), "C01/put-etag")
+		checkEntity("C01/put", h, "/bkt/"+key, body, meta)
+		vsym.Reach("C01/put")
+	case 1: // copy from another key; the copy request overrides one header
+		srcHdr := http.Header{"Content-Type": {"src/type"}, "X-Amz-Meta-A": {"src-a"}, "Content-Encoding": {"src-enc"}}
+		vsym.Assert(Do(h, BodyReq("PUT", "/bkt/src", srcHdr, body)).Code() == 200, "C01/copy-source-put")
+		ch := hdr.Clone()
+		ch.Set("X-Amz-Copy-Source", "/bkt/src")
+		r := Do(h, Req{Method: "PUT", Path: "/bkt/" + key, Header: ch})
+		vsym.Assert(r.Code() == 200, "C01/copy-status")
+		checkEntity("C01/copy-dest", h, "/bkt/"+key, body, meta)
+		// the source is unchanged
+		checkEntity("C01/copy-source", h, "/bkt/src", body, map[string]string{"Content-Type": "src/type", "X-Amz-Meta-A": "src-a", "Content-Encoding": "src-enc"})
+		vsym.Reach("C01/copy")
+	default: // browser-form POST
+		fields := map[string]string{"key": key}
+		for k, v := range meta {
+			fields[k] = v
+		}
+		r := Do(h, FormReq("/bkt", fields, body))
+		vsym.Assert(r.Code() == 200, "C01/form-status")
+		vsym.Assert(r.Hdr.Get("ETag") == etagOf(body), "C01/form-etag")
+		checkEntity("C01/form", h, "/bkt/"+key, body, nil)
+		vsym.Reach("C01/form")
+	}
+}
 
-	rg := Do(h, Req{Method: "GET", Path: "/bkt/" + key})
-	vsym.Assert(rg.Code() == 200, "C01/get-status")
-	vsym.Assert(string(rg.Body) == string(body), "C01/get-body")
-	vsym.Assert(rg.Hdr.Get("Content-Length") == itoa(n), "C01/get-length")
-	vsym.Assert(rg.Hdr.Get("ETag") == etag, "C01/get-etag")
-	vsym.Assert(rg.Hdr.Get("Content-Type") == ct, "C01/get-content-type")
-	vsym.Assert(rg.Hdr.Get("X-Amz-Meta-A") == meta, "C01/get-meta")
-
-	rh := Do(h, Req{Method: "HEAD", Path: "/bkt/" + key})
-	vsym.Assert(rh.Code() == 200, "C01/head-status")
-	vsym.Assert(len(rh.Body) == 0, "C01/head-empty-body")
-	vsym.Assert(rh.Hdr.Get("Content-Length") == itoa(n), "C01/head-length")
-	vsym.Assert(rh.Hdr.Get("ETag") == etag, "C01/head-etag")
-	vsym.Assert(rh.Hdr.Get("Content-Type") == ct, "C01/head-content-type")
-	vsym.Reach("C01/done")
+// VH_C01_mem: memory backend through the HTTP surface, integrity check on/off.
+func VH_C01_mem() {
+	integrity := vsym.Choice("integrity", 2) == 1
+	h, _ := newMemServer(gofakes3.WithIntegrityCheck(integrity))
+	c01Scenario(h, integrity)
 }
